@@ -37,6 +37,7 @@ DECIDED = [
     "C12.10 every registered backend resolves the eight operations",
     "C12.11 the object hierarchy is walked components-first (an image-level abort precedes any vm-level effect of the same call)",
     "C12.12 the per-object loops read only the drilled-down per-object parameters",
+    "C12.11w the object iteration never writes its input parameters; C12.4g a root that is about to be set/removed is not fetched by the prerequisite check (known finding F40)",
 ]
 NOT_DECIDED = ["set-of-names store model over operation sequences", "non-interference between objects at run time"]
 EXHAUSTIVE = True
